@@ -78,6 +78,9 @@ class It:
 def run_case(case):
     import psutil
 
+    if "sched" in case:
+        run_sched(*case["sched"])
+        return Result(["sched"])
     known = known_keys("C04")
     strict = bool(case.get("allow_known"))
     w = history.World()
@@ -371,6 +374,81 @@ def run_case(case):
     return Result(sorted(labels) or ["plain"], nontrivial, {"excluded": excluded})
 
 
+def run_sched(first, steps, flagged):
+    """Two threads run a complete process_iter() pass at the same time
+    (thread `first` is pre-empted after `steps` source lines, then the other
+    runs to completion, then the rest).  Optionally a recycled PID was flagged
+    by is_running() before.  Per-pass clauses only, plus convergence."""
+    import os
+
+    import psutil
+    from vlib import detsched
+
+    w = history.World()
+    k = w.k
+    for i, pid in enumerate(history.PID_POOL[:4]):
+        w.spawn(pid)
+    out = {}
+    with simk.installed(k):
+        list(psutil.process_iter())
+        if flagged:
+            stale = psutil._pmap[history.PID_POOL[0]]
+            w.recycle(history.PID_POOL[0])
+            if stale.is_running():
+                raise Violation("sched-setup", "recycled PID not detected")
+        listing = sorted(k.procs)
+        sched = detsched.Scheduler(os.path.dirname(psutil.__file__))
+
+        def one(i):
+            def run():
+                out[i] = [p.pid for p in psutil.process_iter()]
+            return run
+
+        try:
+            _r, errors, sites = sched.run([one(0), one(1)], [(first, steps), (1 - first, 10**6)])
+        except detsched.Deadlock as e:
+            raise Violation("sched-deadlock", str(e)) from None
+        if errors:
+            e = list(errors.values())[0]
+            import traceback
+            raise Violation(
+                "concurrent-pass-exception",
+                f"two threads iterating at once (thread {first} pre-empted after {steps} lines, "
+                f"flagged={flagged}): {e!r} "
+                + "".join(traceback.format_exception(type(e), e, e.__traceback__))[-500:]
+                + f" sites {sites}")
+        for i in (0, 1):
+            got = out[i]
+            if got != sorted(got) or len(set(got)) != len(got) or set(got) - set(listing):
+                raise Violation("concurrent-pass-order", f"thread {i} yielded {got}, listed {listing}")
+            missing = set(listing) - set(got)
+            if missing - ({history.PID_POOL[0]} if flagged else set()):
+                raise Violation("concurrent-pass-missing", f"thread {i} yielded {got}, listed {listing}")
+        a = {p.pid: p for p in psutil.process_iter()}
+        b = {p.pid: p for p in psutil.process_iter()}
+        if any(a[pid] is not b[pid] for pid in b if pid in a):
+            raise Violation("convergence", "two quiet passes after the concurrent ones yield different objects")
+
+
+def sched_tier(tier, seed, stats):
+    bound = 30 if tier == "quick" else 250
+    n = 0
+    for flagged in (False, True):
+        for first in (0, 1):
+            for steps in range(1, bound):
+                case = {"sched": [first, steps, flagged]}
+                try:
+                    run_sched(first, steps, flagged)
+                except Violation as v:
+                    stats.fail(case, v)
+                    stats.notes["schedules_enumerated"] = n
+                    return
+                n += 1
+                stats.record(case, Result(["sched"], "sched|%d|%s|%d" % (first, flagged, min(steps, 40))),
+                             keep_sample=(n == 1))
+    stats.notes["schedules_enumerated"] = n
+
+
 PROP = Property(
     id="C04",
     level="exploration",
@@ -393,6 +471,7 @@ PROP = Property(
     strategy=strategy,
     run_case=run_case,
     budgets={"quick": 20000, "thorough": 1500000},
+    extra_tiers=[("sched", sched_tier)],
     assumptions=[
         "a listed PID that vanishes between the listing and its turn may be yielded or skipped",
         "object identity is asserted between passes during which no other iterator advanced",
